@@ -627,6 +627,15 @@ theorem contains_markGuards (en it : String) : (gs : GuardList) → (m : Marks) 
       have e1 : ((en, it) == (en, it')) = false := by simp [h']
       have e2 : (it' == it) = false := by simp [h]
       simp [e1, e2, Bool.or_comm]
+  | .cons (.recd _ _ it' _ _) rest, m => by
+    rw [markGuards, contains_markGuards en it rest]
+    simp only [coversItem, List.contains_cons]
+    by_cases h : it' = it
+    · subst h; simp
+    · have h' : ¬ it = it' := fun e => h e.symm
+      have e1 : ((en, it) == (en, it')) = false := by simp [h']
+      have e2 : (it' == it) = false := by simp [h]
+      simp [e1, e2, Bool.or_comm]
   | .cons (.else_ _ _) rest, m => by
     rw [markGuards, contains_markGuards en it rest]
     simp [coversItem]
@@ -643,6 +652,83 @@ theorem exhaustiveM_fst (Γ : Env) (en : String) (gs : GuardList) (m : Marks) :
     funext it
     rw [contains_markGuards, contains_unmarkEnum]
     simp
+
+/-! ### enum records: constructors, record guards -/
+
+/-- `En::it(args)` with a number of arguments other than the enumerator's fields -/
+theorem tc_ctor_arity (Γ : Env) (ln : Ln) (e : Expr) (it s : String) (args : ExprList) (ce : Comb)
+    (cs : List (Ln × Comb)) (fs : List Field)
+    (he : tc Γ e = .ok ce) (hct : ce.ct = .enumId s) (hit : Γ.hasItem s it = true)
+    (ha : tcArgs Γ args = .ok cs) (hf : Γ.enumRecFields s it = some fs) (hlen : fs.length ≠ cs.length) :
+    tc Γ (.ctor ln e it args) = .error ⟨ln, .enumCreate⟩ := by
+  simp [tc, he, hct, hit, ha, hf, paramExprListCmp, hlen, CmpRes.toExcept]
+
+/-- … or with an argument of a kind the field does not accept -/
+theorem tc_ctor_kind (Γ : Env) (ln : Ln) (e : Expr) (it s : String) (args : ExprList) (ce : Comb)
+    (cs : List (Ln × Comb)) (fs : List Field)
+    (he : tc Γ e = .ok ce) (hct : ce.ct = .enumId s) (hit : Γ.hasItem s it = true)
+    (ha : tcArgs Γ args = .ok cs) (hf : Γ.enumRecFields s it = some fs)
+    (hbad : SomeArgRejected (fs.map fun f => (f.cst, f.ty)) cs) :
+    ∃ d, tc Γ (.ctor ln e it args) = .error d ∧ (d.line = ln ∨ ∃ a ∈ cs, d.line = a.1) := by
+  by_cases hlen : fs.length = cs.length
+  · obtain ⟨od, hgo⟩ := paramExprListGo_rejects false _ cs hbad
+    cases od with
+    | none =>
+      exact ⟨⟨ln, .enumCreate⟩, by simp [tc, he, hct, hit, ha, hf, paramExprListCmp, hlen, hgo, CmpRes.toExcept], .inl rfl⟩
+    | some d =>
+      refine ⟨d, by simp [tc, he, hct, hit, ha, hf, paramExprListCmp, hlen, hgo, CmpRes.toExcept], .inr ?_⟩
+      exact paramExprListGo_fail_line false _ _ _ hgo d rfl
+  · exact ⟨_, tc_ctor_arity Γ ln e it s args ce cs fs he hct hit ha hf hlen, .inl rfl⟩
+
+/-- a plain enumerator is not a constructor -/
+theorem tc_ctor_plain (Γ : Env) (ln : Ln) (e : Expr) (it s : String) (args : ExprList) (ce : Comb)
+    (cs : List (Ln × Comb))
+    (he : tc Γ e = .ok ce) (hct : ce.ct = .enumId s) (hit : Γ.hasItem s it = true)
+    (ha : tcArgs Γ args = .ok cs) (hf : Γ.enumRecFields s it = none) :
+    tc Γ (.ctor ln e it args) = .error ⟨ln, .enumCreate⟩ := by
+  simp [tc, he, hct, hit, ha, hf]
+
+/-- a record guard (first guard of a match) with a number of binds other than the fields -/
+theorem tc_match_guard_binds (Γ : Env) (ln gln : Ln) (s : Expr) (en it : String) (binds : List (Ln × String))
+    (e : Expr) (gs : GuardList) (cs : Comb) (en' : String) (pre : GuardList) (arms : List Comb)
+    (hs : tc Γ s = .ok cs) (hen : cs.ct = .val (.enum en')) (hpre : tcGuards Γ pre = .ok arms)
+    (hg : guardItemPre Γ gln en it = .ok ())
+    (hbad : guardBindsOk Γ gln en it binds = .error ⟨gln, .guardBinds⟩) :
+    tc Γ (.match_ ln s (pre.app (.cons (.recd gln en it binds e) gs))) = .error ⟨gln, .guardBinds⟩ := by
+  have h1 : tcGuards Γ (.cons (.recd gln en it binds e) gs) = .error ⟨gln, .guardBinds⟩ := by
+    rw [tcGuards_recd]; simp [recdHead, hg, hbad]
+  have h2 := tcGuards_app_error Γ _ _ h1 pre arms hpre
+  cases pre with
+  | nil => simp only [GuardList.app] at h2 ⊢; simp [tc, hs, hen, h2]
+  | cons g0 r => simp only [GuardList.app] at h2 ⊢; simp [tc, hs, hen, h2]
+
+/-- … a guard that names an enumerator the enum does not have -/
+theorem tc_match_guard_unknown (Γ : Env) (ln gln : Ln) (s : Expr) (en it : String) (binds : List (Ln × String))
+    (e : Expr) (gs : GuardList) (cs : Comb) (en' : String) (pre : GuardList) (arms : List Comb) (d : Diag)
+    (hs : tc Γ s = .ok cs) (hen : cs.ct = .val (.enum en')) (hpre : tcGuards Γ pre = .ok arms)
+    (hg : guardItemPre Γ gln en it = .error d) :
+    tc Γ (.match_ ln s (pre.app (.cons (.recd gln en it binds e) gs))) = .error d := by
+  have h1 : tcGuards Γ (.cons (.recd gln en it binds e) gs) = .error d := by
+    rw [tcGuards_recd]; simp [recdHead, hg]
+  have h2 := tcGuards_app_error Γ _ _ h1 pre arms hpre
+  cases pre with
+  | nil => simp only [GuardList.app] at h2 ⊢; simp [tc, hs, hen, h2]
+  | cons g0 r => simp only [GuardList.app] at h2 ⊢; simp [tc, hs, hen, h2]
+
+/-- … guards that all resolve, one of them (item or record) of ANOTHER enum than the matched value -/
+theorem tc_match_guard_other_enum (Γ : Env) (ln : Ln) (s : Expr) (g : Guard) (gs : GuardList) (cs : Comb)
+    (en : String) (arms : List Comb) (d : Diag)
+    (hs : tc Γ s = .ok cs) (hen : cs.ct = .val (.enum en))
+    (hg : tcGuards Γ (.cons g gs) = .ok arms) (hsame : guardsSameEnum en (.cons g gs) = .error d) :
+    tc Γ (.match_ ln s (.cons g gs)) = .error d := by
+  simp [tc, hs, hen, hg, hsame]
+
+theorem tc_ifletrec_binds (Γ : Env) (ln gln : Ln) (en it : String) (binds : List (Ln × String)) (e t f : Expr)
+    (ce : Comb) (en' : String)
+    (he : tc Γ e = .ok ce) (hen : ce.ct = .val (.enum en')) (hg : guardItemPre Γ gln en it = .ok ())
+    (hbad : guardBindsOk Γ gln en it binds = .error ⟨gln, .guardBinds⟩) :
+    tc Γ (.ifLetRec ln gln en it binds e t f) = .error ⟨gln, .guardBinds⟩ := by
+  simp [tc, he, hen, hg, hbad]
 
 /-! ### a function item needs a name; a main unit needs a function -/
 
